@@ -18,7 +18,7 @@ pub mod sim_writer;
 pub mod sim_pair;
 pub mod sim_dds;
 pub mod sim_c09;
-// pub mod sim_disc;
+pub mod sim_disc;
 pub mod lease;
 pub mod qosx;
 // pub mod wiregen;
